@@ -174,6 +174,9 @@ func (e *SpecEnv) eval(x ast.Expr) Val {
 		// generic instantiation handled in CallExpr
 		base := e.eval(x.X)
 		idx := e.eval(x.Index)
+		if mt, ok := base.T.Underlying().(*types.Map); ok {
+			return vc.mapLookup(e.st, base, idx, mt)
+		}
 		i64 := bvExtend(idx.L[0], widthOf(idx.T), 64, isSigned(idx.T))
 		switch bt := base.T.Underlying().(type) {
 		case *types.Slice:
